@@ -32,6 +32,12 @@ func TestVerif_C28_Flood(t *testing.T) {
 	n := r.N(1500, 30000)
 	r.Cases("seq", n, func(ci int, rng *verifkit.Rand) { c28FloodCase(r, "seq", ci, rng) })
 	r.Cases("signable", r.N(200, 2000), func(ci int, rng *verifkit.Rand) { c28SignableCase(r, "signable", ci, rng) })
+	r.Cases("origin", r.N(400, 8000), func(ci int, rng *verifkit.Rand) { c28OriginCase(r, "origin", ci, rng) })
+	ne := r.N(12, 96)
+	r.ParCases("elapsed", ne, 12, func(ci int, rng *verifkit.Rand) { c28ElapsedCase(r, "elapsed", ci, rng) })
+	r.Require("origin_replays_judged", 400)
+	r.Require("origin_replays_after_dedup_dropped", 300)
+	r.Require("elapsed_expired_replays_judged", 8)
 	r.Require("valid_accepted", 200)
 	r.Require("invalid_rejected", 1000)
 	r.Require("forward_frames_checked", 200)
@@ -170,4 +176,182 @@ func c28SignableCase(r *verifkit.R, phase string, ci int, rng *verifkit.Rand) {
 		}
 	}
 	r.Eval(fmt.Sprintf("signable-%d", ci), true)
+}
+
+// c28OriginCase: state the Flooder keeps about commands it has handled before must never
+// stand in for verification. A command enters the Flooder through an entry point that does
+// not verify (local origination: FloodWakeCommand / FloodSleepCommand, which also store the
+// "pending wake"), then its dedup entry is dropped through the code's own cleanup helper
+// (called with a far-future `now`; the validity verdict does not depend on that: the command
+// is invalid at the real current time by construction), then the identical command arrives
+// from a peer. Unsigned / badly signed / out-of-window commands must still be rejected.
+func c28OriginCase(r *verifkit.R, phase string, ci int, rng *verifkit.Rand) {
+	window := verifkit.Pick(rng, []time.Duration{time.Minute, 5 * time.Minute, 30 * time.Minute})
+	g := c28NewGen(rng, window)
+	local := c28ID(rng)
+	s := &c28Sender{}
+	for i, k := 0, rng.Range(1, 3); i < k; i++ {
+		s.peers = append(s.peers, c28ID(rng))
+	}
+	cfg := DefaultFloodConfig()
+	cfg.TimestampWindow = window
+	pub := g.good.PublicKey
+	cfg.SigningPublicKey = &pub
+	f := NewFlooder(cfg, local, nil, s)
+	defer f.Stop()
+
+	var steps []c28Step
+	var fp string
+	judged := 0
+	classes := []string{"stale-signed", "stale-signed", "stale-signed", "unsigned", "stale-unsigned", "wrong-key", "sig-bitflip", "random-sig"}
+	for round, nr := 0, rng.Range(1, 4); round < nr; round++ {
+		wake := rng.Chance(3, 4)
+		var x *c28Cmd
+		if rng.Chance(1, 6) {
+			x = g.genuine(wake) // control: a valid command originated locally (not judged)
+		} else {
+			x = g.invalid(verifkit.Pick(rng, classes), wake, nil)
+		}
+		x.Origin = local
+		if rng.Chance(1, 4) {
+			x.Origin = c28ID(rng)
+		}
+		// re-derive signature / validity for the final origin
+		switch {
+		case x.Class == "valid" || len(x.Class) > 12 && x.Class[:13] == "stale-signed-":
+			g.sign(x, g.good)
+		case x.Class == "wrong-key":
+			g.sign(x, g.other)
+		case x.Class == "sig-bitflip":
+			g.sign(x, g.good)
+			x.Sig[rng.Intn(len(x.Sig))] ^= 1 << uint(rng.Intn(8))
+		}
+		g.finish(x)
+		x.SeenBy = nil
+		// 1. local origination (no verification at this entry point)
+		m := s.mark()
+		if x.Wake {
+			f.FloodWakeCommand(x.wakeCmd())
+		} else {
+			f.FloodSleepCommand(x.sleepCmd())
+		}
+		steps = append(steps, c28Step{Cmd: x.witness(), From: "local-origination", Sent: len(s.since(m)), Expect: "not judged"})
+		// 2. optionally unrelated forged traffic
+		for i, k := 0, rng.Intn(3); i < k; i++ {
+			c28Deliver(f, s, verifkit.Pick(rng, s.peers), g.invalid(verifkit.Pick(rng, c28InvalidClasses), rng.Bool(), nil))
+		}
+		// 3. the dedup entry ages out
+		dropped := true
+		if rng.Chance(5, 6) {
+			f.sleepCmdMu.Lock()
+			f.cleanupSleepCmdCache(time.Now().Add(20*window+20*cfg.SeenCacheTTL), cfg.SeenCacheTTL)
+			f.sleepCmdMu.Unlock()
+			dropped = f.SleepCommandSeenCacheSize() == 0
+		} else {
+			dropped = false
+		}
+		// 4. the identical command arrives from peers (same type, then possibly the other type)
+		for k, nk := 0, rng.Range(1, 3); k < nk; k++ {
+			c := *x
+			if k > 0 && rng.Bool() {
+				c.Wake = !c.Wake
+				g.finish(&c)
+			}
+			c.SeenBy = c28Seed(rng, s.peers, local, false)
+			from := verifkit.Pick(rng, s.peers)
+			out := c28Deliver(f, s, from, &c)
+			st := c28Step{Cmd: c.witness(), From: fmt.Sprintf("%x", from[:4]), Accepted: out.Accepted, Sent: len(out.Sent)}
+			fp += fmt.Sprintf("%s/%s/%v/%v/%d;", c.Class, c.typ(), dropped, out.Accepted, len(out.Sent))
+			if c.valid() {
+				st.Expect = "valid: not judged here"
+				steps = append(steps, st)
+				r.Add("origin_valid_control", 1)
+				continue
+			}
+			st.Expect = "reject, forward nothing"
+			steps = append(steps, st)
+			judged++
+			r.Add("origin_replays_judged", 1)
+			if dropped {
+				r.Add("origin_replays_after_dedup_dropped", 1)
+			}
+			cls := c28Family(c.Class)
+			if out.Accepted {
+				r.Violation("flood:"+c.typ()+":"+cls+":accepted-after-local-origination", phase, ci,
+					"a command that is invalid now was accepted because the Flooder had originated/stored the identical command before", steps)
+			}
+			if len(out.Sent) > 0 {
+				r.Violation("flood:"+c.typ()+":"+cls+":forwarded-after-local-origination", phase, ci,
+					fmt.Sprintf("Flooder sent %d frame(s) for a command that is invalid now but identical to one it originated before", len(out.Sent)), steps)
+			}
+		}
+	}
+	r.Eval(fp, judged > 0)
+}
+
+// c28ElapsedCase: a genuine wake command is accepted (and becomes the pending wake); then
+// real time passes until the command is outside a small window by a full window (lower
+// bound on elapsed time only: time.Sleep never returns early), the dedup entry is cleaned
+// up at the real current time, and the identical command is delivered again. It is stale
+// now and must be rejected like any other stale command.
+func c28ElapsedCase(r *verifkit.R, phase string, ci int, rng *verifkit.Rand) {
+	const window = 2 * time.Second
+	const ttl = time.Second
+	g := c28NewGen(rng, window)
+	local := c28ID(rng)
+	s := &c28Sender{}
+	for i, k := 0, rng.Range(1, 3); i < k; i++ {
+		s.peers = append(s.peers, c28ID(rng))
+	}
+	cfg := DefaultFloodConfig()
+	cfg.TimestampWindow = window
+	cfg.SeenCacheTTL = ttl
+	pub := g.good.PublicKey
+	cfg.SigningPublicKey = &pub
+	f := NewFlooder(cfg, local, nil, s)
+	defer f.Stop()
+
+	t0 := time.Now()
+	g.now = t0
+	wake := rng.Chance(3, 4)
+	x := g.genuineAt(wake, 0) // timestamp = floor(t0) <= t0
+	var steps []c28Step
+	out := c28Deliver(f, s, verifkit.Pick(rng, s.peers), x)
+	steps = append(steps, c28Step{Cmd: x.witness(), From: "peer", Accepted: out.Accepted, Sent: len(out.Sent), Expect: "valid now"})
+	if !out.Accepted {
+		r.Add("elapsed_first_not_accepted", 1) // machine stalled > 1 s between signing and delivery: nothing to judge
+		r.Eval(fmt.Sprintf("elapsed-%d-na", ci), false)
+		return
+	}
+	time.Sleep(2*window + 50*time.Millisecond)
+	if time.Since(t0) < 2*window { // cannot happen (monotonic clock); guard for the oracle's precondition
+		r.Inconclusive("time.Sleep returned early")
+		return
+	}
+	f.sleepCmdMu.Lock()
+	f.cleanupSleepCmdCache(time.Now(), ttl)
+	f.sleepCmdMu.Unlock()
+	dropped := f.SleepCommandSeenCacheSize() == 0
+	for k := 0; k < 2; k++ {
+		c := *x
+		if k == 1 {
+			c.Wake = !c.Wake
+		}
+		c.TSIn = false // >= 2 x window old now
+		c.Class = "expired-copy-of-accepted"
+		c.SeenBy = c28Seed(rng, s.peers, local, false)
+		o := c28Deliver(f, s, verifkit.Pick(rng, s.peers), &c)
+		steps = append(steps, c28Step{Cmd: c.witness(), From: "peer", Accepted: o.Accepted, Sent: len(o.Sent),
+			Expect: fmt.Sprintf("reject: timestamp is >= %v old, window %v (dedup entry dropped: %v)", 2*window, window, dropped)})
+		r.Add("elapsed_expired_replays_judged", 1)
+		if o.Accepted {
+			r.Violation("flood:"+c.typ()+":expired-copy-of-accepted:accepted", phase, ci,
+				"an exact copy of a previously accepted command was accepted again after its timestamp left the validity window", steps)
+		}
+		if len(o.Sent) > 0 {
+			r.Violation("flood:"+c.typ()+":expired-copy-of-accepted:forwarded", phase, ci,
+				"an exact copy of a previously accepted command was forwarded after its timestamp left the validity window", steps)
+		}
+	}
+	r.Eval(fmt.Sprintf("elapsed-%d-%v-%v", ci, wake, dropped), true)
 }
